@@ -441,8 +441,11 @@ PROPS = {
         lean_modules=['OLP.Props.C16'], namespaces=['OLP.Props.C16'],
         required_theorems=['step_refines', 'panics_are_shared', 'run_refines', 'impl_refines_ref_partial', 'impl_refines_ref_decidable_partial',
                            'impl_refines_ref_from_empty_partial', 'sane_storeOK', 'client_refines', 'any_client_same_result_partial', 'sim_init',
-                           'ref_revert_restores', 'ref_finalise_promotes',
-                           'recreated_account_keeps_storage', 'createAccount_keeps_storage', 'marker_code_fails_finalise',
+                           'storeOK_preserved', 'storeOK_empty', 'sameStart_empty',
+                           'no_orphan_storage_step', 'no_orphan_storage_run', 'no_orphan_storage_invariant',
+                           'ref_revert_restores', 'ref_finalise_promotes', 'marker_code_fails_finalise',
+                           'regress_recreated_account_reads_empty_storage', 'regress_createAccount_over_storage',
+                           'regress_historic_residue_not_read',
                            'regress_selfdestruct_balance', 'regress_paid_after_selfdestruct', 'regress_dirty_index',
                            'regress_reverted_transfer_keeps_empty_account'],
         run=run_c16, replay=replay_olh('evm'), level='proof',
@@ -451,8 +454,8 @@ PROPS = {
         assumptions=['Keccak-256 is injective on the codes and storage keys that occur (the model identifies a code hash with the code and keccak(addr||slot) with (addr, slot)); amounts, nonces and the refund counter are unbounded naturals (uint64 / 256-bit wrap-around is out of scope)',
                      'SubBalance is only called with amount <= balance (every EVM path checks CanTransfer / buyGas first): beyond it the adapter panics ("Failed to minus balance") while go-ethereum lets the balance go negative; counted as precondition-subbalance-underflow, both Lean models refuse',
                      'a contract code equal to the store\'s deletion marker (the 3 bytes e2 9b bc) is outside the property\'s input class: the store refuses the record and Finalise fails the transaction (b55dd24, 078c4d3), which the reference semantics has no counterpart for; counted as excluded-code-equals-deletion-marker, excluded by the guard of the theorems (theorem marker_code_fails_finalise shows the behaviour)',
-                     'starting records are sane (Store.sane, decidable, checked by the driver): no empty account is stored, no storage record of an absent account, the code of every account present',
+                     'starting records are sane (Store.sane, decidable, checked by the driver): no empty account is stored and the code of every account is present; an invariant (kept by every call inside the guards, theorem storeOK_preserved; true of the empty records), a hypothesis only for arbitrary starting records. Storage records under an address without an account (left by deletions before 8684164) are allowed',
                      'oracle normalisation, interface-op mode only: go-ethereum journals a resetObjectChange (dirtied() = nil) when an object is created over a live or previously deleted one, so a bare CreateAccount / SubBalance(a,0) leaves the fresh object out of journal.dirties; the harness issues SetNonce(a, current nonce) on the oracle behind every creating call (the EVM itself always follows CreateAccount with SetNonce(1)); not applied when the calls come from the EVM',
                      'transition code cross-check (adapter\'s vm.ApplyMessage vs go-ethereum core.ApplyMessage over go-ethereum state) is modulo the chain\'s own parameters: refund quotient 3 instead of 5, no coinbase payment, zero base fee, nonce-too-high admitted (S12, another property)'],
-        model_limits='impl_refines_ref / any_client_same_result are proved under Impl.safeRun / Client.safe, a decidable predicate on the adapter state evaluated by the driver on every correspondence line. After the repairs in /repo it excludes only: the one mechanism left (KF-C16-2: Finalise deleting an account with non-zero storage records, CreateAccount over a live account that has some), the deletion-marker code (documented input exclusion), Finalise(false), the RIPEMD sticky touch, and Prepare/Reset inside a transaction. Proved as invariants of every reachable state (no longer guards): no journal operation / undo / dirty-counter update can fail, so the adapter panics exactly where the reference does (JOK); Finalise writes out every account with a live journal entry (JCnt); every dirty slot has its original value cached when commitState runs, followed through createObject/resetObject entries (OOK); the access list is abstracted to counts so a slot listed without its address could not make the two differ. Remaining hypothesis on the starting records: Store.sane (no empty account stored, since empty stored accounts are only covered by the correspondence run). dirties + addressToJournalIndex are modelled as one association list (the code keeps them consistent since f45414e; a regression would show as a panic in the correspondence run). The access list is modelled as flat lists (vm/access_list.go is a verbatim copy of go-ethereum\'s), preimages and ForEachStorage are not modelled, gas metering constants and opcodes are go-ethereum\'s on both sides.'),
+        model_limits='impl_refines_ref / any_client_same_result are proved under Impl.safeRun / Client.safe, a decidable predicate on the adapter state evaluated by the driver on every correspondence line. After the repairs in /repo (the last one 8684164: the storage records of an account are deleted with it and a created object does not read those of its predecessor) it excludes four things. (1) Finalise returning the store\'s error because an object is written out whose new code is the deletion marker e2 9b bc: reachable from a transaction (a deployment with exactly that runtime code), deliberate since 078c4d3, the reason the theorems keep the name _partial; the guard is exact (Impl.finaliseGuard = this Finalise(true) returns no error). (2) Finalise(false): not reachable, the only call is Finalise(true) in vm/evm.go Apply. (3) Prepare with a non-empty journal or open revisions and (4) Reset with a non-empty journal: not reachable, Prepare is called at the top of DeliverTx and Reset in EndBlock, after the Finalise that ends every applied transaction and empties the journal even when it fails; 2-4 are restrictions of the reference model (go-ethereum\'s own Prepare is not journaled either). No longer excluded: storage residue (former S8 guards), the RIPEMD touch exception (its extra dirty count and the sticky touch decide nothing since the records hold no empty account). Proved as invariants of every reachable state: no journal operation / undo / dirty-counter update can fail, so the adapter panics exactly where the reference does (JOK); Finalise writes out every account with a live journal entry (JCnt, a lower bound on the dirty counters); every dirty slot has its original value cached when commitState runs, followed through createObject/resetObject entries (OOK); the access list is abstracted to counts. At the level of the records (which the interface cannot see because created objects hide old records): no storage record is left under an address without an account (no_orphan_storage_invariant), and the engine compares the raw balance and storage records of every universe address with the reference\'s committed state after every Finalise (signature records-differ-from-reference). dirties + addressToJournalIndex are modelled as one association list (the code keeps them consistent since f45414e; a regression would show as a panic in the correspondence run). The access list is modelled as flat lists (vm/access_list.go is a verbatim copy of go-ethereum\'s), preimages and ForEachStorage are not modelled (ForEachStorage still bounds its iteration with storage.Rangefix, wrong for binary keys; the EVM does not call it), gas metering constants and opcodes are go-ethereum\'s on both sides.'),
 }
